@@ -44,12 +44,21 @@ type Contract struct {
 	Pos        string
 	File       string
 	Shared     string // name of the shared contract this was instantiated from
+	Implements string // closures: the protocol this function literal implements
+	ImplInst   string // type instance for $T in that protocol
 }
 
 type GhostDecl struct {
 	Name string // "wfail" or "List.view"
 	Type string
 	Field bool
+}
+
+// TagDecl demands a struct tag on a field (decided syntactically): tag Type.Field key "value" [props]
+type TagDecl struct {
+	Type, Field, Key, Value string
+	Props                   []string
+	Pos                     string
 }
 
 // LogicFn is an uninterpreted logical function declared in a contract or trusted spec file.
@@ -82,13 +91,15 @@ type ContractSet struct {
 	Protocols  map[string]*Protocol
 	Preds      map[string]*Pred
 	Logics     map[string]*LogicFn
+	FieldProto map[string]string // "Type.field" -> protocol obeyed by the function value stored there
+	Tags       []TagDecl
 	Axioms     []*Clause
 	Applies    map[string][]string // shared contract name -> function keys
 	Errors     []string
 }
 
 func NewContractSet() *ContractSet {
-	return &ContractSet{ByKey: map[string]*Contract{}, Protocols: map[string]*Protocol{}, Preds: map[string]*Pred{}, Logics: map[string]*LogicFn{}, Applies: map[string][]string{}}
+	return &ContractSet{ByKey: map[string]*Contract{}, Protocols: map[string]*Protocol{}, Preds: map[string]*Pred{}, Logics: map[string]*LogicFn{}, FieldProto: map[string]string{}, Applies: map[string][]string{}}
 }
 
 var clauseKW = map[string]bool{
@@ -96,7 +107,7 @@ var clauseKW = map[string]bool{
 	"requires": true, "ensures": true, "invariant": true, "modifies": true, "decreases": true,
 	"helper": true, "inline": true, "pure": true, "nowf": true, "use": true, "protocol": true,
 	"yields": true, "param": true, "contract": true, "applies": true, "opaque": true, "entry": true, "spec": true,
-	"terminal": true, "allocates": true, "pred": true, "trigger": true, "assumed": true, "partial": true, "stream": true, "resumes": true, "refines": true, "logic": true, "axiom": true, "nilrecv": true, "verify": true,
+	"terminal": true, "allocates": true, "pred": true, "trigger": true, "assumed": true, "partial": true, "stream": true, "resumes": true, "refines": true, "field": true, "implements": true, "tag": true, "logic": true, "axiom": true, "nilrecv": true, "verify": true,
 }
 
 var labelRe = regexp.MustCompile(`^([A-Za-z_][\w']*)\s*(\[[A-Za-z0-9, ]*\])?\s*:`)
@@ -207,6 +218,41 @@ func (cs *ContractSet) ParseContractLines(file string, lines []string, poss []st
 			delete(cs.ByKey, cur.Key)
 			cur.Key = "stream." + cur.Key
 			cs.ByKey[cur.Key] = cur
+		case "tag":
+			// tag Type.Field key "value" [C04]
+			m := regexp.MustCompile(`^(\w+)\.(\w+)\s+(\w+)\s+"([^"]*)"\s*(\[[A-Z0-9, ]*\])?$`).FindStringSubmatch(it.rest)
+			if m == nil {
+				cs.Errors = append(cs.Errors, fmt.Sprintf("%s: bad tag declaration %q", it.pos, it.rest))
+				continue
+			}
+			td := TagDecl{Type: m[1], Field: m[2], Key: m[3], Value: m[4], Pos: it.pos}
+			for _, p := range strings.Split(strings.Trim(m[5], "[]"), ",") {
+				if p = strings.TrimSpace(p); p != "" {
+					td.Props = append(td.Props, p)
+				}
+			}
+			cs.Tags = append(cs.Tags, td)
+			cur = nil
+		case "field":
+			// field Type.name follows protocol
+			f := strings.Fields(it.rest)
+			if len(f) == 3 && f[1] == "follows" {
+				cs.FieldProto[f[0]] = f[2]
+			} else {
+				cs.Errors = append(cs.Errors, fmt.Sprintf("%s: bad field declaration %q", it.pos, it.rest))
+			}
+			cur = nil
+		case "implements":
+			// implements protocol [instance]
+			if cur != nil {
+				f := strings.Fields(it.rest)
+				if len(f) >= 1 {
+					cur.Implements = f[0]
+				}
+				if len(f) >= 2 {
+					cur.ImplInst = f[1]
+				}
+			}
 		case "refines":
 			if cur != nil {
 				cur.Flags["refines:"+strings.TrimSpace(it.rest)] = true
@@ -398,6 +444,9 @@ func (cs *ContractSet) ResolveApplies() {
 				continue
 			}
 			c := *shared
+			if i := strings.Index(fk, "["); i >= 0 && strings.HasSuffix(fk, "]") {
+				c = *instantiateContract(shared, fk[i+1:len(fk)-1], cs)
+			}
 			c.Key = fk
 			c.Kind = "func"
 			c.Flags = map[string]bool{}
@@ -409,6 +458,42 @@ func (cs *ContractSet) ResolveApplies() {
 			cs.Order = append(cs.Order, &c)
 		}
 	}
+}
+
+// instantiateContract re-parses the clauses of a contract with the placeholder $T replaced by a type name.
+func instantiateContract(c *Contract, inst string, cs *ContractSet) *Contract {
+	n := *c
+	re := func(cls []*Clause) []*Clause {
+		var out []*Clause
+		for _, cl := range cls {
+			nc := *cl
+			nc.Text = strings.ReplaceAll(cl.Text, "$T", inst)
+			e, err := ParseCExpr(nc.Text)
+			if err != nil {
+				cs.Errors = append(cs.Errors, fmt.Sprintf("%s: instance %s: %v", cl.Pos, inst, err))
+				continue
+			}
+			nc.Expr = e
+			out = append(out, &nc)
+		}
+		return out
+	}
+	n.Requires, n.Ensures, n.Invariants = re(c.Requires), re(c.Ensures), re(c.Invariants)
+	n.Modifies = nil
+	for _, m := range c.Modifies {
+		t := strings.ReplaceAll(m.Text, "$T", inst)
+		e, err := ParseCExpr(t)
+		if err != nil {
+			cs.Errors = append(cs.Errors, fmt.Sprintf("%s: instance %s: %v", c.Pos, inst, err))
+			continue
+		}
+		n.Modifies = append(n.Modifies, &ModItem{Text: t, Expr: e})
+	}
+	n.Flags = map[string]bool{}
+	for k, v := range c.Flags {
+		n.Flags[k] = v
+	}
+	return &n
 }
 
 func commentIndex(s string) int {
